@@ -78,7 +78,12 @@ class Contract(object):
         self.bounded = d.get("bounded")           # text if this is a bounded stand-in, else None
         self.accepts = d.get("accepts")           # python-level predicate(ctx, ns): typed case selector at call sites
         self.pre_hints = d.get("pre_hints")       # {callee name: spec fn} proof hints run before proving pre@callee
+        self.defines = d.get("defines", {})        # path -> spec fn(args..., old): the new value of that location
+        #                                            (used INSTEAD of havoc+assume; the matching ensures clause
+        #                                            `location == fn(...)` is what the callee's own proof shows)
         self.open_dicts = d.get("open_dicts", ())  # objects whose named (non-field) dict entries are havoc'd at calls
+        self.force_contracts = tuple(d.get("force_contracts", ()))  # callee targets whose summary is used even
+        #                                                               when its own `accepts` would decline
         self.check_effect = d.get("check_effect", False)  # prove (not assume) ensures about the effect hook
         self.effect = d.get("effect")             # python-level hook(ctx, ns) -> result, replaces `returns`
         self.proof = d.get("proof", "symbolic")   # 'symbolic' | 'table' (discharged by a @table obligation)
